@@ -103,13 +103,13 @@ func (pw *pathWorld) checkRoot(ri *rootInfo, status string, full bool) *mismatch
 	rd, err := pw.pdb.NodeReader(cid)
 	if status == "A" {
 		if err == nil {
-			return &mismatch{key: "triedb:path:dropped-root-still-served", what: fmt.Sprintf("model root %d is not registered in the layer tree according to PathDB.tla, yet NodeReader succeeds", ri.id),
+			return &mismatch{key: "triedb:pathdb:dropped-root-still-served", what: fmt.Sprintf("model root %d is not registered in the layer tree according to PathDB.tla, yet NodeReader succeeds", ri.id),
 				expected: "layer not found", observed: "reader"}
 		}
 		return nil
 	}
 	if err != nil || rd == nil {
-		return &mismatch{key: "triedb:path:live-root-not-served", what: fmt.Sprintf("model root %d (status %s) must be readable, NodeReader fails: %v", ri.id, status, err),
+		return &mismatch{key: "triedb:pathdb:live-root-not-served", what: fmt.Sprintf("model root %d (status %s) must be readable, NodeReader fails: %v", ri.id, status, err),
 			expected: "reader", observed: fmt.Sprint(err)}
 	}
 	if !full {
@@ -120,7 +120,7 @@ func (pw *pathWorld) checkRoot(ri *rootInfo, status string, full bool) *mismatch
 		// node level: every path any state ever had, through the reader
 		trd, err := pw.pdb.NodeReader(pw.trieID(t, ri.label))
 		if err != nil {
-			return &mismatch{key: "triedb:path:live-root-not-served", what: fmt.Sprintf("NodeReader of trie %s at model root %d: %v", t, ri.id, err)}
+			return &mismatch{key: "triedb:pathdb:live-root-not-served", what: fmt.Sprintf("NodeReader of trie %s at model root %d: %v", t, ri.id, err)}
 		}
 		o := pw.owner(t)
 		for p := range pw.seen[t] {
@@ -139,15 +139,15 @@ func (pw *pathWorld) checkRoot(ri *rootInfo, status string, full bool) *mismatch
 				if err == nil {
 					kind = "wrong"
 				}
-				return &mismatch{key: fmt.Sprintf("triedb:path:node-%s:%s", kind, t),
+				return &mismatch{key: fmt.Sprintf("triedb:pathdb:node-%s:%s", kind, t),
 					what:     fmt.Sprintf("reader of model root %d, trie %s, path %s: the canonical trie of the content has a node here (err %v)", ri.id, t, bitsOf(&pp), err),
 					expected: fmt.Sprintf("%x", want.blob), observed: fmt.Sprintf("%x", blob)}
 			case !present && err == nil && len(blob) > 0:
-				return &mismatch{key: "triedb:path:node-not-deleted:" + t,
+				return &mismatch{key: "triedb:pathdb:node-not-deleted:" + t,
 					what:     fmt.Sprintf("reader of model root %d, trie %s, path %s: the canonical trie of the content has NO node here, the reader returns one (node of another state)", ri.id, t, bitsOf(&pp)),
 					expected: "not found", observed: fmt.Sprintf("%x", blob)}
 			case !present && err != nil && !isNotFound(err):
-				return &mismatch{key: "triedb:path:node-read-error:" + t,
+				return &mismatch{key: "triedb:pathdb:node-read-error:" + t,
 					what: fmt.Sprintf("reader of model root %d, trie %s, path %s: unexpected error %v", ri.id, t, bitsOf(&pp), err)}
 			}
 			if present && err == nil && len(pw.retained) < 4000 && pw.counts["node-reads"]%7 == 0 {
@@ -160,13 +160,13 @@ func (pw *pathWorld) checkRoot(ri *rootInfo, status string, full bool) *mismatch
 			if status == "S" && errors.Is(err, errStale) {
 				continue
 			}
-			return &mismatch{key: "triedb:path:trie-open:" + t, what: fmt.Sprintf("opening trie %s at model root %d: %v", t, ri.id, err)}
+			return &mismatch{key: "triedb:pathdb:trie-open:" + t, what: fmt.Sprintf("opening trie %s at model root %d: %v", t, ri.id, err)}
 		}
 		if status == "L" {
 			got, _ := tr.Hash()
 			want := ri.roots[t]
 			if !got.Equal(&want) {
-				return &mismatch{key: "triedb:path:trie-root:" + t, what: fmt.Sprintf("root hash of trie %s opened at model root %d differs from the committed / refimpl root", t, ri.id),
+				return &mismatch{key: "triedb:pathdb:trie-root:" + t, what: fmt.Sprintf("root hash of trie %s opened at model root %d differs from the committed / refimpl root", t, ri.id),
 					expected: want.String(), observed: got.String()}
 			}
 		}
@@ -178,10 +178,10 @@ func (pw *pathWorld) checkRoot(ri *rootInfo, status string, full bool) *mismatch
 				if status == "S" && errors.Is(err, errStale) {
 					continue
 				}
-				return &mismatch{key: "triedb:path:get-error:" + t, what: fmt.Sprintf("Get(%v) on trie %s at model root %d: %v", kb, t, ri.id, err)}
+				return &mismatch{key: "triedb:pathdb:get-error:" + t, what: fmt.Sprintf("Get(%v) on trie %s at model root %d: %v", kb, t, ri.id, err)}
 			}
 			if !got.Equal(want) {
-				return &mismatch{key: "triedb:path:get-wrong-value:" + t,
+				return &mismatch{key: "triedb:pathdb:get-wrong-value:" + t,
 					what:     fmt.Sprintf("Get(%v) on trie %s at model root %d returns a value of another state", kb, t, ri.id),
 					expected: want.String(), observed: got.String()}
 			}
@@ -193,7 +193,7 @@ func (pw *pathWorld) checkRoot(ri *rootInfo, status string, full bool) *mismatch
 func (pw *pathWorld) checkRetained() *mismatch {
 	for _, r := range pw.retained {
 		if !bytes.Equal(r.got, r.copy) {
-			return &mismatch{key: "triedb:path:retained-blob-changed", what: "a node blob handed out by a reader changed afterwards: " + r.where,
+			return &mismatch{key: "triedb:pathdb:retained-blob-changed", what: "a node blob handed out by a reader changed afterwards: " + r.where,
 				expected: fmt.Sprintf("%x", r.copy), observed: fmt.Sprintf("%x", r.got)}
 		}
 	}
@@ -214,7 +214,10 @@ func (pw *pathWorld) commitWithCrash(ri *rootInfo, j int) *mismatch {
 	}
 	pw.fk.OnWrite = func(n int, kind string) {
 		if strings.HasPrefix(kind, "batch") {
-			if armed { // the next flush began: the late point is gone, take the image before it is too late — it is not: this batch is applied already
+			if armed {
+				if image == nil && cloneErr == nil { // no direct put between two flushes: the late point does not exist
+					cloneErr = errors.New("late crash point: no mutation between two flush batches")
+				}
 				return
 			}
 			batches++
@@ -238,20 +241,20 @@ func (pw *pathWorld) commitWithCrash(ri *rootInfo, j int) *mismatch {
 		take() // no later mutation: the image is the final disk
 	}
 	if err != nil {
-		return &mismatch{key: "triedb:path:commit-error", what: fmt.Sprintf("Commit(model root %d): %v", ri.id, err)}
+		return &mismatch{key: "triedb:pathdb:commit-error", what: fmt.Sprintf("Commit(model root %d): %v", ri.id, err)}
 	}
 	if cloneErr != nil {
 		return &mismatch{key: "triedb-harness:clone", what: cloneErr.Error()}
 	}
 	if image == nil {
-		return &mismatch{key: "triedb:path:commit-flush-count", what: fmt.Sprintf("Commit(model root %d) wrote %d flush batches, PathDB.tla expects at least %d (one per persisted layer)", ri.id, batches, j),
+		return &mismatch{key: "triedb:pathdb:commit-flush-count", what: fmt.Sprintf("Commit(model root %d) wrote %d flush batches, PathDB.tla expects at least %d (one per persisted layer)", ri.id, batches, j),
 			expected: j, observed: batches}
 	}
 	pw.close()
 	pw.kit, pw.store = imageKit, image
 	pw.counts["crash-images"]++
 	if e := pw.openDB(); e != nil {
-		return &mismatch{key: "triedb:path:open-after-crash", what: "pathdb.New on the surviving image fails: " + e.Error()}
+		return &mismatch{key: "triedb:pathdb:open-after-crash", what: "pathdb.New on the surviving image fails: " + e.Error()}
 	}
 	return nil
 }
@@ -275,12 +278,12 @@ func replayPath(in *pathInput, beh []step, v *variant) (out *outcome, nsteps int
 	pw := &pathWorld{world: newWorld(v, in.H), kit: kit, store: store, eager: beh[0].Eager, counts: counts}
 	defer func() { pw.close() }()
 	if err := pw.openDB(); err != nil {
-		return &outcome{key: "triedb:path:open-empty", what: err.Error()}, 0, counts
+		return &outcome{key: "triedb:pathdb:open-empty", what: err.Error()}, 0, counts
 	}
 	last := "none"
 	defer func() {
 		if p := recover(); p != nil {
-			out = &outcome{key: "triedb:path:panic:after-" + last, what: fmt.Sprintf("panic in the real pathdb: %v", p), step: nsteps}
+			out = &outcome{key: "triedb:pathdb:panic:after-" + last, what: fmt.Sprintf("panic in the real pathdb: %v", p), step: nsteps}
 		}
 	}()
 	fail := func(si int, m *mismatch) (*outcome, int, map[string]int) {
@@ -306,7 +309,7 @@ func replayPath(in *pathInput, beh []step, v *variant) (out *outcome, nsteps int
 			}
 			if old := pw.roots[s.A.Root]; old != nil {
 				if old.label != ri.label {
-					return fail(si, &mismatch{key: "triedb:path:same-content-different-root", what: fmt.Sprintf("model root %d reached again commits to a different state root", s.A.Root),
+					return fail(si, &mismatch{key: "triedb:pathdb:same-content-different-root", what: fmt.Sprintf("model root %d reached again commits to a different state root", s.A.Root),
 						expected: old.label.String(), observed: ri.label.String()})
 				}
 				counts["root-repeated"]++
@@ -325,18 +328,18 @@ func replayPath(in *pathInput, beh []step, v *variant) (out *outcome, nsteps int
 			}
 			cm, err := pw.applyChanges(pw.pathOpener(pw.pdb), parent, s.A.Ch)
 			if err != nil {
-				return fail(si, &mismatch{key: "triedb:path:update-tries", what: "tries opened on the live parent root fail: " + err.Error()})
+				return fail(si, &mismatch{key: "triedb:pathdb:update-tries", what: "tries opened on the live parent root fail: " + err.Error()})
 			}
 			for _, t := range trieNames {
 				if want, got := ri.roots[t], cm.roots[t]; !want.Equal(&got) {
-					return fail(si, &mismatch{key: "triedb:path:committed-root:" + t,
+					return fail(si, &mismatch{key: "triedb:pathdb:committed-root:" + t,
 						what:     fmt.Sprintf("trie %s opened on model root %d through pathdb commits to a different root than on the raw scheme / refimpl", t, parent.id),
 						expected: want.String(), observed: got.String()})
 				}
 			}
 			pl := parent.label
 			if err := pw.pdb.Update(&cm.label, &pl, uint64(si+1), cm.classSet, cm.contracts, nil); err != nil {
-				return fail(si, &mismatch{key: "triedb:path:update-error", what: fmt.Sprintf("Update(root %d, parent %d): %v", ri.id, parent.id, err)})
+				return fail(si, &mismatch{key: "triedb:pathdb:update-error", what: fmt.Sprintf("Update(root %d, parent %d): %v", ri.id, parent.id, err)})
 			}
 			pw.roots[s.A.Root] = ri
 		case "Cap":
@@ -350,29 +353,29 @@ func replayPath(in *pathInput, beh []step, v *variant) (out *outcome, nsteps int
 				err = capLayers(pw.pdb, &label, s.A.K)
 			}
 			if err != nil && !s.Failed {
-				return fail(si, &mismatch{key: "triedb:path:cap-error", what: fmt.Sprintf("cap(model root %d, %d): %v", ri.id, s.A.K, err)})
+				return fail(si, &mismatch{key: "triedb:pathdb:cap-error", what: fmt.Sprintf("cap(model root %d, %d): %v", ri.id, s.A.K, err)})
 			}
 		case "Journal":
 			ri := pw.roots[s.A.Root]
 			label := ri.label
 			if err := pw.pdb.Journal(&label); err != nil {
-				return fail(si, &mismatch{key: "triedb:path:journal-error", what: fmt.Sprintf("Journal(model root %d): %v", ri.id, err)})
+				return fail(si, &mismatch{key: "triedb:pathdb:journal-error", what: fmt.Sprintf("Journal(model root %d): %v", ri.id, err)})
 			}
 		case "Shutdown":
 			ri := pw.roots[s.A.Root]
 			label := ri.label
 			if err := pw.pdb.Journal(&label); err != nil {
-				return fail(si, &mismatch{key: "triedb:path:journal-error", what: fmt.Sprintf("Journal(model root %d): %v", ri.id, err)})
+				return fail(si, &mismatch{key: "triedb:pathdb:journal-error", what: fmt.Sprintf("Journal(model root %d): %v", ri.id, err)})
 			}
 			if err := pw.pdb.Close(); err != nil {
-				return fail(si, &mismatch{key: "triedb:path:close-error", what: err.Error()})
+				return fail(si, &mismatch{key: "triedb:pathdb:close-error", what: err.Error()})
 			}
 			if err := pw.restart(); err != nil {
-				return fail(si, &mismatch{key: "triedb:path:open-after-shutdown", what: "pathdb.New after Journal; Close fails: " + err.Error()})
+				return fail(si, &mismatch{key: "triedb:pathdb:open-after-shutdown", what: "pathdb.New after Journal; Close fails: " + err.Error()})
 			}
 		case "Reopen":
 			if err := pw.restart(); err != nil {
-				return fail(si, &mismatch{key: "triedb:path:open-after-crash", what: "pathdb.New on the disk of a crashed process fails: " + err.Error()})
+				return fail(si, &mismatch{key: "triedb:pathdb:open-after-crash", what: "pathdb.New on the disk of a crashed process fails: " + err.Error()})
 			}
 		case "CommitCrash":
 			if m := pw.commitWithCrash(pw.roots[s.A.Root], s.A.J); m != nil {
